@@ -303,8 +303,8 @@ void QXmppPubSubSubscription::toXml(QXmlStreamWriter *writer) const
     writeOptionalXmlAttribute(writer, u"subscription", stateToString(d->state));
     writeOptionalXmlAttribute(writer, u"subid", d->subId);
     if (d->expiry.isValid()) {
-        writer->writeAttribute(QSL65("expiry"),
-                               QXmppUtils::datetimeToString(d->expiry));
+        // a valid date-time beyond year 9999 has no XEP-0082 representation: write nothing rather than expiry=""
+        writeOptionalXmlAttribute(writer, u"expiry", QXmppUtils::datetimeToString(d->expiry));
     }
 
     if (d->configurationSupport > Unavailable) {
